@@ -103,8 +103,10 @@ def worker(args):
                 if sample and ob.status == "proved":
                     out["_sampled"] = True
                     out["sample_smt2"] = {"obligation": ob.name, "smt2": (ob.smt2 or "")[:3000]}
+                if p.ghost.get("overapprox"):
+                    ob.info["overapprox"] = p.ghost["overapprox"]
                 rec = {"name": ob.name, "status": ob.status, "secs": round(ob.secs, 4), "clause": ob.info.get("clause"),
-                       "path": ob.info.get("path"), "backend": ob.backend, "info": {k: v for k, v in ob.info.items() if k in ("line", "unexpected_exception", "callee", "spec_raised", "trivial")}}
+                       "path": ob.info.get("path"), "backend": ob.backend, "info": {k: v for k, v in ob.info.items() if k in ("line", "unexpected_exception", "callee", "spec_raised", "trivial", "overapprox")}}
                 if ob.status == "refuted":
                     try:
                         inputs = {k: conc(I, ob.model, v, p.heap) for k, v in p.ghost.get("inputs", p.ghost.get("entry_locals", {})).items()
@@ -382,11 +384,16 @@ def main(argv=None):
     # report
     seen = set()
     nviol = 0
+    violations.sort(key=lambda ro: 1 if ro[1]["info"].get("overapprox") else 0)      # exact refutations of an obligation first
     for r, ob in violations:
         if ob["name"] in seen:
             continue
         seen.add(ob["name"])
         path, confirmed, outtxt = replay(a.pid, r, ob)
+        if not confirmed and ob["info"].get("overapprox"):
+            # refuted only on a path that went through a sound over-approximation: not a verdict about the code
+            undecided.append(f"{ob['name']}: refuted only under an over-approximation ({ob['info']['overapprox']}); the native replay did not confirm it")
+            continue
         hit = None
         for k in kf:
             if k.get("obligation") == ob["name"] or (k.get("obligation_prefix") and ob["name"].startswith(k["obligation_prefix"])):
